@@ -104,7 +104,16 @@ def mon_prioq(ctx):
     return res
 
 
-MONITORS = [mon_squareroot, mon_nextretry, mon_prioq]
+def mon_histories(ctx):
+    """daemon histories on the qsim engine (virtual clock, TERM/restart, ALRM, lifetimes), see c15_hist.py"""
+    from . import c15_hist
+    ctx.rule.append("(d) seeded histories of the real qmail-send with a virtual clock: no attempt before the retry time fixed at the "
+                    "previous pass opening (observed exactly), prompt once due with free slots, earlier-due first, schedule kept "
+                    "over TERM + restart, ALRM makes waiting messages due, past the lifetime a deferral becomes a failure") if isinstance(getattr(ctx, "rule", None), list) else None
+    return c15_hist.mon_histories(ctx.tier, ctx.build)
+
+
+MONITORS = [mon_squareroot, mon_nextretry, mon_prioq, mon_histories]
 
 
 def main(tier):
